@@ -159,6 +159,48 @@ IndepPool(p) ==
     { u \in pool : u.t = p.t \/ (Quick /\ u.t \in {"Var", "Const"}) \/ u = x }
 
 --------------------------------------------------------------------------
+(* NON-instances by SPLITTING a repeated pattern variable (mode "split"): one occurrence   *)
+(* (the k-th in operand order) of a variable that occurs at least twice is instantiated    *)
+(* with another operand than all its other occurrences, every other variable uniformly.    *)
+(* The operand pairs put a FALSY value - zero of each numeric type, False, a product with  *)
+(* a zero factor, a quotient with zero numerator: exactly the trees whose Python truth     *)
+(* value is False (TruthE) - against a different operand, in both orders, so that          *)
+(* whichever occurrence the algorithm processes first, the clash test of the binding       *)
+(* tables (unify_map) is exercised with a falsy EARLIER binding and with a falsy LATER one.*)
+(* No sound record exists for such a target unless the operands can be regrouped; every    *)
+(* record that is returned is judged like any other.                                      *)
+RECURSIVE Occ(_, _), MarkK(_, _, _, _)
+Occ(e, n) == IF e.t = "Var" THEN (IF e.name = n THEN 1 ELSE 0)
+             ELSE SeqSum([i \in 1..Len(KidsW(e)) |-> Occ(KidsW(e)[i], n)])
+MarkK(e, n, k, m) ==      \* the k-th occurrence of variable n (1 <= k <= Occ(e, n)) becomes m
+    IF e.t = "Var" THEN (IF e.name = n /\ k = 1 THEN m ELSE e)
+    ELSE LET ks == KidsW(e)
+             Before(i) == SeqSum([j \in 1..(i - 1) |-> Occ(ks[j], n)])
+         IN WithKidsW(e, [i \in 1..Len(ks) |->
+                IF k > Before(i) /\ k <= Before(i) + Occ(ks[i], n)
+                THEN MarkK(ks[i], n, k - Before(i), m) ELSE ks[i]])
+K0 == KI(0)
+FalsyQuick == { K0, K(FltV(0, 1)), K(BoolV(FALSE)), P(<< K0, x >>), B("Quotient", K0, y) }
+FalsyMore  == { P(<< x, K0 >>), P(<< K0 >>), S(<< K0 >>), B("Quotient", P(<< K0, x >>), z) }
+FalsyOps == IF Quick THEN FalsyQuick ELSE FalsyQuick \cup FalsyMore
+NonFalsy == IF Quick THEN { y } ELSE { y, K1, S(<< y, z >>) }
+\* << operand of the k-th occurrence, operand of the other occurrences >>; the K1 pairs are
+\* the same split without a falsy operand.  quick: the falsy operand at the first resp. the
+\* last occurrence (SplitKs), which for two occurrences is both orders; thorough: at every
+\* occurrence, and also as the operand of all the OTHER occurrences
+SplitPairs == { << u, v >> : u \in FalsyOps, v \in NonFalsy } \cup { << K1, y >> }
+              \cup (IF Quick THEN {}
+                    ELSE { << v, u >> : u \in FalsyOps, v \in NonFalsy }
+                         \cup { << y, K1 >>, << P(<< K0, x >>), B("Quotient", K0, y) >> })
+BaseSub(p) == [n \in PVars(p) |-> CASE n = "a" -> x [] n = "b" -> z [] OTHER -> V("w")]
+SplitKs(p, n) == IF Tier = "thorough" THEN 1..Occ(p, n) ELSE {1, Occ(p, n)}
+SplitTargets(p) ==
+    UNION { { LET s == (n :> pr[2]) @@ BaseSub(p) IN
+              [t |-> Inst(MarkK(p, n, k, V("?")), ("?" :> pr[1]) @@ s), s |-> s] :
+                k \in SplitKs(p, n), pr \in SplitPairs } :
+            n \in { m \in PVars(p) : Occ(p, m) >= 2 } }
+
+--------------------------------------------------------------------------
 Init == pat \in Roots /\ tgt = Hole /\ mode = "" /\ sub = EmptyMap
 PatDone == NHoles(pat) = 0
 Complete == tgt.t # "Hole"
@@ -182,6 +224,7 @@ PickTarget ==
        \/ \E h \in Draw(Renamings(pat)) :
             tgt' = Inst(pat, AsSubst(h)) /\ mode' = "ren" /\ sub' = AsSubst(h)
        \/ \E u \in Draw(IndepPool(pat)) : tgt' = u /\ mode' = "indep" /\ sub' = EmptyMap
+       \/ \E r \in Draw(SplitTargets(pat)) : tgt' = r.t /\ mode' = "split" /\ sub' = r.s
 Next == FillPattern \/ PickTarget
 
 --------------------------------------------------------------------------
@@ -218,6 +261,11 @@ MeaningSelfCheck ==
     Complete =>
       /\ mode \in {"inst", "mix"} => BindVerdict(pat, tgt, PVars(pat), sub) = "OK"
       /\ mode = "extra" => BindVerdict(pat, tgt, PVars(pat), sub) # "OK"
+      \* a split target is not the instance under the uniform substitution, and a falsy
+      \* operand really is one
+      /\ mode = "split" => BindVerdict(pat, tgt, PVars(pat), sub) # "OK"
+      /\ \A u \in FalsyOps : IsZeroE(u)
+      /\ \A u \in NonFalsy : TruthE(u)
       /\ mode = "ren" =>
             (IsInjRenaming(pat, tgt, PVars(pat))
                <=> LET h == [n \in VarsOf(pat) |-> IF n \in DOMAIN sub THEN sub[n].name ELSE n]
